@@ -38,6 +38,10 @@ class P:
             cases.append("%s\t%s\t%s\t%s" % (hx(a), ",".join("c" + hx(x) for x in ca), hx(b), ",".join("c" + hx(x) for x in cb)))
         fixed = []
         for a, b in [("a && b\n", "a && \\\n\nb\n"), ("a | b\n", "a | \\\n \n b\n"),
+                     # (F45 at the other places where the lexer skips the line break itself)
+                     ("case x in\na) b ;;\nesac\n", "case x in \\\n\na) b ;;\nesac\n"), ("case x in esac\n", "case x \\\n\nin esac\n"),
+                     ("for i; do a; done\n", "for i; \\\n\ndo a; done\n"), ("f() { a; }\n", "f() \\\n\n{ a; }\n"),
+                     ("case x in a) b ;; c) d ;; esac\n", "case x in a) b ;; \\\n\nc) d ;; esac\n"),
                      ("a b\n", "a \\\n b\n"), ("a;b\n", "a\nb\n"), ("if a; then b; fi\n", "if a # c\nthen\n\n b\nfi\n"), ("a|b\n", "a |\n\n b\n"),
                      ("a && b\n", "a && # c\n b\n"), ("{ a; }\n", "{\n a\n}\n"), ("for i in 1 2; do a; done\n", "for i in 1 2\ndo\na\ndone\n"),
                      # a word directly before a redirection operator: only a word that is one all-digit literal is an IO number
@@ -134,7 +138,7 @@ class P:
         f = case.split("\t")
         for src in (unhx(f[0]).decode("utf-8", "replace"), unhx(f[2]).decode("utf-8", "replace")):
             # F45: a line continuation directly followed by an empty or blank line, at a line break after && || |
-            if re.search(r"(&&|\|\||\|)[ \t]*\\\n[ \t]*\n", src) and (impl.startswith("skip:") or impl.startswith("FAIL")):
+            if re.search(r"(&&|\|\||\||\bin|\bcase x|;|;;|\(\))[ \t]*\\\n[ \t]*\n", src) and (impl.startswith("skip:") or impl.startswith("FAIL")):
                 for fd in findings:
                     if fd.get("id") == "F45" and fd.get("status") == "open":
                         return "F45"
